@@ -9,7 +9,7 @@ NOTES = ('Contract-based deductive verification of the real code. Engine V: Veru
          'See DESIGN.md.')
 ENGINES = [
     {'name': 'V', 'path': '/verif/lib/verus_engine.py',
-     'serves_properties': ['C01', 'C02', 'C04', 'C05', 'C06', 'C07', 'C08', 'C09', 'C10', 'C11', 'C12', 'C13', 'C14', 'C15', 'C17', 'C18'],
+     'serves_properties': ['C01', 'C02', 'C04', 'C05', 'C06', 'C07', 'C08', 'C09', 'C10', 'C11', 'C12', 'C13', 'C14', 'C15', 'C17', 'C18', 'C19'],
      'kind_free_text': 'Verus 0.2026.09.13 single-file deductive verification of functions cut verbatim from /repo/src (and functions '
                        'cut from the pinned dependency sources: cbor-smol skipper, heapless / heapless-bytes decoders); contracts (spec functions, *SpecImpl blocks, injected ensures, ghost state, lemmas) in /verif/verus'},
     {'name': 'D', 'path': '/verif/lib/decl_engine.py',
@@ -135,9 +135,9 @@ CHECKS = {
   'note': 'serde_repr rejecting other numbers on the wire: A2; strings longer than 20 bytes cannot equal a <= 17 byte constant (A11).',
  },
  'C19': {
-  'engine': 'K', 'design_ref': 'DESIGN.md §5 C19',
-  'technique': 'Kani contract harnesses on the private generator helpers with the arbitrary feature, bounded input length',
-  'text': 'Bounded: for every input of up to 16 bytes the helpers return NotEnoughData or a value within capacity, text is valid UTF-8 at the from_utf8_unchecked site, the pointer cast yields readable bytes, no unwrap fires; CTAP1 request generator for inputs up to 68 bytes (thorough).',
-  'note': 'whole ctap2::Request generation not explored (type too large for CBMC); input length bounded.',
+  'engine': 'V+K', 'design_ref': 'DESIGN.md §5 C19, §10.4h',
+  'technique': 'Verus proof of the real bodies of arbitrary_str / arbitrary_bytes / arbitrary_key (cut from src/arbitrary.rs every run) for input byte strings of any length: within capacity, well-formed UTF-8 at from_utf8_unchecked, no unwrap can fire; Kani contract harnesses on all private generator helpers and the CTAP1 generator with the arbitrary feature, bounded input length',
+  'text': 'Unbounded (Verus, any input length, any capacity): arbitrary_str, arbitrary_bytes and arbitrary_key return an error or a value within capacity, the text handed to from_utf8_unchecked is well-formed, neither unwrap can panic. Bounded (Kani, real monomorphised code): for every input of up to 16 bytes all helpers (including arbitrary_vec and the pointer cast of arbitrary_byte_array) return NotEnoughData or a value within capacity, no unwrap fires; CTAP1 request generator for inputs up to 68 bytes (thorough). The level is model_checking because the derived generators and two helpers are bounded only.',
+  'note': 'assumed: AR (Unstructured bytes/peek_bytes, core from_utf8 family, heapless / heapless-bytes panicking conversions); whole ctap2::Request generation not explored (type too large for CBMC); Kani input length bounded.',
  },
 }
